@@ -342,6 +342,7 @@ func c02NewProposal(p string, m *c02Model, base uint64, wellFormed bool) c02Prop
 		recs[i] = c02Record(p + ".rec")
 	}
 	garbageDigest := false
+	indexed := false
 	if wellFormed {
 		zzsym.Assume(man.ChannelEpoch != 0)
 		zzsym.Assume(man.LeaderTerm != 0)
@@ -353,8 +354,14 @@ func c02NewProposal(p string, m *c02Model, base uint64, wellFormed bool) c02Prop
 			zzsym.Assume(recs[i].ID != 0)
 			zzsym.Assume(recs[i].Epoch == man.ChannelEpoch)
 			zzsym.Assume(recs[i].ServerTimestampMS > 0)
-			recs[i].Index = zzsym.U64(p + ".rec.index")
-			zzsym.Assume(recs[i].Index == 0 || recs[i].Index == man.BaseOffset+uint64(i)+1)
+			// records carry either no index or exactly their offset (a branch per record in the
+			// sealer: one shared choice, thorough only)
+			if zzsym.Thorough() && i == 0 && zzsym.Choice(p+".rec.indexed", 2) == 1 {
+				indexed = true
+			}
+			if indexed {
+				recs[i].Index = man.BaseOffset + uint64(i) + 1
+			}
 		}
 	} else {
 		if zzsym.Choice(p+".fault.version", 2) == 1 {
@@ -391,7 +398,8 @@ func c02NewProposal(p string, m *c02Model, base uint64, wellFormed bool) c02Prop
 		out.manifest.Digest = c02Garbage
 	}
 	if wellFormed {
-		zzsym.Assert(ok, "SealProposalManifest refused a well-formed proposal")
+		// sealing of valid proposals is C05's obligation and is re-asserted by Harness_C02_BuildInvariant
+		zzsym.Assume(ok)
 	}
 	return out
 }
@@ -432,3 +440,280 @@ func c02IsReplay(m *c02Model, pr c02Proposal) bool {
 	return any == 1
 }
 
+func c02AssertInv(s *MemoryChannelStore) {
+	loader, hwOK, chain, tiles := c02Inv(s)
+	zzsym.Assert(loader, "after the step the store's exact-state loader fails or misreports the tail")
+	zzsym.Assert(hwOK, "after the step the committed watermark exceeds the log end")
+	zzsym.Assert(chain, "after the step the identities are not an unbroken predecessor chain over 1..LEO")
+	zzsym.Assert(tiles, "after the step the stored proposals do not tile the log consistently with the identities")
+}
+
+func c02MaxU64(a, b uint64) uint64 {
+	d := zzsym.B2U(b > a)
+	return a*(1^d) + b*d
+}
+
+// ---------------------------------------------------------------- base case
+
+// Harness_C02_BuildInvariant: every store built through the real exact AppendLeader from valid
+// proposals chained to the tail (the construction all other entries start from) accepts each
+// proposal as Durable, satisfies the invariant and holds exactly the appended proposals.
+func Harness_C02_BuildInvariant() {
+	s, m := c02Build("b", 0, c02MaxProposals(), true)
+	loader, hwOK, chain, tiles := c02Inv(s)
+	zzsym.Assert(loader, "built store: the exact-state loader fails or misreports the tail")
+	zzsym.Assert(hwOK, "built store: the committed watermark exceeds the log end")
+	zzsym.Assert(chain, "built store: the identities are not an unbroken predecessor chain over 1..LEO")
+	zzsym.Assert(tiles, "built store: the stored proposals do not tile the log consistently with the identities")
+	zzsym.Assert(c02Holds(s, m), "built store does not hold exactly the appended proposals")
+	if m.leo() > 0 {
+		zzsym.Reach("non-empty")
+	}
+	zzsym.Observe("built", m.leo(), uint64(len(m.manifests)), s.checkpoint.HW)
+}
+
+// ---------------------------------------------------------------- (1) AppendLeader step
+
+func c02AppendStep(wellFormed bool, maxBuild int) {
+	s, m := c02Build("b", 0, maxBuild, false)
+	leo, hw := m.leo(), m.hw
+
+	base, far := c02Offset("base", leo)
+	pr := c02NewProposal("q", m, base, wellFormed)
+	committed := zzsym.U64("q.committed")
+	if wellFormed {
+		zzsym.Assume(committed <= pr.manifest.LastOffset) // Committed beyond the proposal: AppendMalformed
+	}
+	req := AppendLeaderRequest{
+		Records: pr.records, Class: AppendClass(zzsym.U8("q.class")), Committed: committed,
+		ServerAllocatedMessageIDs: zzsym.Bool("q.serverids"),
+		ExactBaseOffset:           true, ExpectedBaseOffset: base, Proposal: pr.manifest,
+	}
+	res, err := s.AppendLeader(context.Background(), req)
+
+	c02AssertInv(s)
+	zzsym.Assert(s.checkpoint.HW >= hw && s.leoLocked() >= leo, "AppendLeader moved the committed watermark backwards or shortened the log")
+	zzsym.Assert((res.Outcome == AppendOutcomeDurable || res.Outcome == AppendOutcomeAlreadyDurable ||
+		res.Outcome == AppendOutcomeConflict || res.Outcome == AppendOutcomeDefinitelyNotWritten) && (err == nil) == res.Outcome.Durable(),
+		"AppendLeader outcome outside the closed set or inconsistent with its error")
+
+	newHW := c02MaxU64(hw, committed)
+	validReq := pr.sealOK && pr.sealed && committed <= pr.manifest.LastOffset && pr.manifest.BaseOffset == base
+	chains := c02Chains(m, pr.manifest)
+	fresh := c02FreshCommand(m, pr.manifest)
+	replay := c02IsReplay(m, pr)
+
+	switch res.Outcome {
+	case AppendOutcomeDurable:
+		zzsym.Reach("durable")
+		zzsym.Assert(!far && base == leo && pr.manifest.BaseOffset == leo, "Durable although the base offset is not the log end")
+		zzsym.Assert(chains, "Durable although the manifest predecessor is not the stored tail")
+		zzsym.Assert(validReq && fresh, "Durable for a request that is not a sealed well-formed proposal with a new command id")
+		zzsym.Assert(res.BaseOffset == leo+1 && res.LastOffset == leo+uint64(len(pr.records)) && res.LastOffset == pr.manifest.LastOffset && res.NeedFrom == 0,
+			"Durable result does not describe the appended range")
+		if pr.sealOK && !far {
+			next := &c02Model{manifests: m.manifests, entries: m.entries, records: m.records}
+			next.add(pr.manifest, pr.entries, pr.records)
+			next.hw = newHW
+			zzsym.Assert(c02Holds(s, next), "after Durable the store is not the old log plus exactly the sealed proposal, HW = max(HW, Committed)")
+		}
+	case AppendOutcomeAlreadyDurable:
+		zzsym.Reach("already-durable")
+		zzsym.Assert(replay && validReq, "AlreadyDurable for a request that is not a byte-identical stored proposal")
+		zzsym.Assert(res.LastOffset == pr.manifest.LastOffset && res.BaseOffset == pr.manifest.BaseOffset+1 && res.NeedFrom == 0, "AlreadyDurable result does not describe the stored range")
+		same := &c02Model{manifests: m.manifests, entries: m.entries, records: m.records, hw: newHW}
+		zzsym.Assert(c02Holds(s, same), "AlreadyDurable changed the log (only HW may advance to Committed)")
+	default:
+		zzsym.Reach("refused")
+		zzsym.Assert(c02Holds(s, m), "a refused AppendLeader changed the store")
+		zzsym.Assert(res.BaseOffset == 0 && res.LastOffset == 0, "a refused AppendLeader reports an offset range")
+		zzsym.Assert(res.NeedFrom == 0 || (res.Outcome == AppendOutcomeConflict && base > leo && res.NeedFrom == leo+1 && errors.Is(err, ch.ErrLogConflict)),
+			"NeedFrom reported without a gap, or not LEO+1")
+	}
+	// completeness of the documented gap / accept / replay cases
+	zzsym.Assert(!(validReq && base > leo) || (res.Outcome == AppendOutcomeConflict && res.NeedFrom == leo+1), "a gap did not give Conflict with NeedFrom = LEO+1")
+	zzsym.Assert(!(validReq && !far && chains && fresh) || res.Outcome == AppendOutcomeDurable, "a valid proposal chained to the tail at the log end was refused")
+	zzsym.Assert(!(validReq && !far && replay) || res.Outcome == AppendOutcomeAlreadyDurable, "an exact replay of a stored proposal was not AlreadyDurable")
+	if far {
+		zzsym.Reach("far-base")
+	}
+	zzsym.Observe("append", uint64(res.Outcome), leo, res.NeedFrom, zzsym.B2U(err == nil))
+}
+
+// Harness_C02_AppendStep: one exact AppendLeader with a sealed, well-formed proposal at an arbitrary
+// base offset, arbitrary predecessor, authority, command id (possibly stored) and Committed.
+func Harness_C02_AppendStep() { c02AppendStep(true, c02MaxProposals()) }
+
+// Harness_C02_AppendMalformed: one exact AppendLeader whose manifest range fields, version, record
+// validity and digest are arbitrary: nothing but a sealed well-formed proposal is ever written.
+func Harness_C02_AppendMalformed() {
+	max := 1
+	if zzsym.Thorough() {
+		max = 2
+	}
+	c02AppendStep(false, max)
+}
+
+// ---------------------------------------------------------------- (1) ReplaceRecoverySuffix step
+
+func c02ReplaceStep(wellFormed bool, maxBuild, maxProposals int) {
+	s, m := c02Build("b", 0, maxBuild, false)
+	leo, hw := m.leo(), m.hw
+
+	current, loadErr := s.loadExactStateLocked()
+	zzsym.Assume(loadErr == nil) // proved by Harness_C02_BuildInvariant
+	// Expected = the real frontier, perturbed by arbitrary deltas (exact iff every delta is zero)
+	exp := current
+	dLEO, dHW, dCk := zzsym.U64("exp.dleo"), zzsym.U64("exp.dhw"), zzsym.U64("exp.dcheckpoint")
+	dTerm, dIndex := zzsym.U64("exp.dterm"), zzsym.U64("exp.dindex")
+	fDigest, fTail, fCmd := zzsym.U8("exp.flipdigest"), zzsym.U8("exp.fliptail"), zzsym.U8("exp.flipcmd")
+	exp.LEO += dLEO
+	exp.HW += dHW
+	exp.CheckpointHW += dCk
+	exp.Manifest.LeaderTerm += dTerm
+	exp.TailIdentity.Index += dIndex
+	exp.Manifest.Digest[0] ^= fDigest
+	exp.TailIdentity.Digest[31] ^= fTail
+	exp.TailIdentity.CommandID[0] ^= fCmd
+	exact := dLEO == 0 && dHW == 0 && dCk == 0 && dTerm == 0 && dIndex == 0 && fDigest == 0 && fTail == 0 && fCmd == 0
+
+	kt, far := c02Offset("keep", leo)
+	committed := zzsym.U64("r.committed")
+	inRange := !far && kt <= leo
+	onBoundary := inRange && m.boundary(kt)
+	kept := &c02Model{}
+	if inRange {
+		kept = m.prefix(kt) // meaningful only on a proposal boundary; an off-boundary cut is never accepted
+	}
+	np := zzsym.Choice("r.proposals", maxProposals+1)
+	next := &c02Model{manifests: kept.manifests, entries: kept.entries, records: kept.records}
+	proposals := make([]RecoveryProposal, 0, np)
+	chained := true // concrete per path: every proposal sent is sealed, fresh and chained on what precedes it
+	chainedSym := uint64(1)
+	runBase := kt
+	for i := 0; i < np; i++ {
+		pr := c02NewProposal("r", next, runBase, wellFormed)
+		proposals = append(proposals, RecoveryProposal{Manifest: pr.manifest, Records: pr.records})
+		if !(pr.sealOK && pr.sealed) {
+			chained = false
+			break
+		}
+		chainedSym &= zzsym.B2U(c02Chains(next, pr.manifest)) & zzsym.B2U(c02FreshCommand(next, pr.manifest))
+		next.add(pr.manifest, pr.entries, pr.records)
+		runBase = pr.manifest.LastOffset
+	}
+	complete := chained && chainedSym == 1
+	next.hw = committed
+
+	res, err := s.ReplaceRecoverySuffix(context.Background(), ReplaceRecoverySuffixRequest{
+		Expected: exp, KeepThrough: kt, Proposals: proposals, Committed: committed,
+	})
+
+	c02AssertInv(s)
+	zzsym.Assert(s.checkpoint.HW >= hw, "ReplaceRecoverySuffix lowered the committed watermark")
+	accept := exact && onBoundary && kt >= hw && complete && committed >= hw && committed <= next.leo()
+	if res.Outcome.Durable() {
+		zzsym.Reach("replaced")
+		zzsym.Assert(err == nil && res.Outcome == AppendOutcomeDurable, "accepted replace with an error or a replay outcome")
+		zzsym.Assert(exact, "replace accepted although Expected is not the current exact frontier")
+		zzsym.Assert(inRange && kt >= hw, "replace accepted with KeepThrough outside [HW, LEO]")
+		zzsym.Assert(onBoundary, "replace accepted with KeepThrough inside a stored proposal")
+		zzsym.Assert(committed >= hw, "replace accepted with Committed below the current watermark")
+		zzsym.Assert(complete, "replace accepted a replacement suffix that is not a sealed chain on the kept prefix")
+		if onBoundary && chained {
+			zzsym.Assert(committed <= next.leo() && res.LastOffset == next.leo(), "replace accepted with Committed beyond the new log end, or misreports the new log end")
+			zzsym.Assert(c02Holds(s, next), "after replace the store is not the kept prefix plus exactly the replacement proposals with HW = Committed")
+		}
+		if inRange && kt < leo {
+			zzsym.Reach("suffix-cut")
+		}
+	} else {
+		zzsym.Reach("refused")
+		zzsym.Assert(err != nil && (res.Outcome == AppendOutcomeConflict || res.Outcome == AppendOutcomeDefinitelyNotWritten) && res.LastOffset == 0,
+			"refused replace without an error or with an outcome outside {Conflict, DefinitelyNotWritten}")
+		zzsym.Assert(c02Holds(s, m), "a refused replace changed the store")
+	}
+	zzsym.Assert(!accept || res.Outcome == AppendOutcomeDurable, "a replace fenced by the exact frontier with a valid suffix was refused")
+	zzsym.Observe("replace", uint64(res.Outcome), leo, res.LastOffset, zzsym.B2U(err == nil))
+}
+
+// Harness_C02_ReplaceStep: one ReplaceRecoverySuffix with an arbitrary Expected frontier (any
+// deviation from the real one), arbitrary KeepThrough and Committed, and 0..1 (thorough 0..2)
+// well-formed replacement proposals with arbitrary predecessor/authority/command.
+func Harness_C02_ReplaceStep() {
+	if zzsym.Thorough() {
+		c02ReplaceStep(true, 3, 2)
+		return
+	}
+	c02ReplaceStep(true, 2, 1)
+}
+
+// Harness_C02_ReplaceMalformed: the replacement proposal itself is arbitrary (range fields,
+// version, records, digest): a replace is atomic, nothing is cut unless the whole suffix is valid.
+func Harness_C02_ReplaceMalformed() {
+	if zzsym.Thorough() {
+		c02ReplaceStep(false, 2, 2)
+		return
+	}
+	c02ReplaceStep(false, 2, 1)
+}
+
+// ---------------------------------------------------------------- (1) watermark setter
+
+// Harness_C02_StoreCheckpoint: the checkpoint setter never lowers HW and touches nothing else. The
+// store itself does not clamp: the caller contract HW <= LEO (the reactor passes its state HW,
+// C06) is needed for the HW <= LEO part; Load clamps what it reports.
+func Harness_C02_StoreCheckpoint() {
+	s, m := c02Build("b", 0, 2, false)
+	hw := zzsym.U64("checkpoint.hw")
+	err := s.StoreCheckpoint(context.Background(), ch.Checkpoint{HW: hw})
+	zzsym.Assert(err == nil, "StoreCheckpoint failed")
+	zzsym.Assert(s.checkpoint.HW >= m.hw, "StoreCheckpoint lowered the committed watermark")
+	after := &c02Model{manifests: m.manifests, entries: m.entries, records: m.records, hw: c02MaxU64(m.hw, hw)}
+	zzsym.Assert(c02Holds(s, after), "StoreCheckpoint changed the log or did not store max(HW, requested)")
+	loader, hwOK, chain, tiles := c02Inv(s)
+	zzsym.Assert(hw > m.leo() || (loader && hwOK && chain && tiles), "StoreCheckpoint within the log end broke the invariant")
+	st, loadErr := s.Load(context.Background())
+	zzsym.Assert(loadErr == nil && st.HW <= st.LEO && st.LEO == m.leo(), "Load reports a committed watermark beyond the log end")
+	if hw > m.hw {
+		zzsym.Reach("advanced")
+	}
+	zzsym.Observe("checkpoint", s.checkpoint.HW, m.leo())
+}
+
+// ---------------------------------------------------------------- (2) agreement lemma
+
+// Harness_C02_Agreement: two stores built independently through the real API (both satisfy the
+// chain invariant, Harness_C02_BuildInvariant). If they hold the same identity (digest) at offset
+// i they hold the same identity and the same content at every offset j <= i.
+func Harness_C02_Agreement() {
+	max := 2
+	if zzsym.Thorough() {
+		max = 3
+	}
+	a, ma := c02Build("a", 1, max, false)
+	b, mb := c02Build("b", 1, max, false)
+	n := int(ma.leo())
+	if int(mb.leo()) < n {
+		n = int(mb.leo())
+	}
+	i := 1 + zzsym.Choice("i", n)
+	ea, oka := a.entriesByIndex[uint64(i)]
+	eb, okb := b.entriesByIndex[uint64(i)]
+	zzsym.Assert(oka && okb, "identity missing at an offset <= LEO")
+	if ea.Digest == eb.Digest {
+		zzsym.Reach("same-identity-at-i")
+		for j := 1; j <= i; j++ {
+			ja, jb := a.entriesByIndex[uint64(j)], b.entriesByIndex[uint64(j)]
+			zzsym.Assert(ja == jb, "two chained logs agree on the identity at i but differ in an identity at j <= i")
+			zzsym.Assert(ja.ChannelEpoch == jb.ChannelEpoch && ja.LeaderTerm == jb.LeaderTerm && ja.FenceVersion == jb.FenceVersion &&
+				ja.CommandID == jb.CommandID && ja.Digest == jb.Digest, "agreeing logs differ in authority, command or digest at j <= i")
+			ra, oka := a.recordBySeqLocked(uint64(j))
+			rb, okb := b.recordBySeqLocked(uint64(j))
+			zzsym.Assert(oka && okb && c02SameContent(ra, rb), "agreeing logs differ in message content at j <= i")
+		}
+	} else {
+		zzsym.Reach("different-identity-at-i")
+	}
+	zzsym.Observe("agreement", uint64(i), ma.leo(), mb.leo(), zzsym.B2U(ea.Digest == eb.Digest))
+}
